@@ -4,6 +4,7 @@ import (
 	"fmt"
 
 	"github.com/zclconf/go-cty/cty"
+	"github.com/zclconf/go-cty/cty/convert"
 
 	"verif/harness/core"
 	"verif/harness/gen"
@@ -136,7 +137,17 @@ func runPairs(c *core.Ctx, base int64) {
 			continue
 		}
 		vals := fixedValues(S)
-		for _, T := range pool {
+		for ti, T := range pool {
+			// one conversion function applied to all fixed values of the source type in sequence
+			ridx := int64(500_000_000) + idx + int64(ti)
+			if c.Mine(ridx) && c.Want(base+ridx) {
+				S, T := S, T
+				Sty, Tty := buildType(S), buildType(T)
+				c.Begin(base+ridx, func() string { return fmt.Sprintf("reuse of the conversion %s -> %s on its fixed values", S, T) })
+				c.Count("mode:pool-pair-reuse")
+				checkReuse(c, siteUnsafe, func() convert.Conversion { return convert.GetConversionUnsafe(Sty, Tty) }, sameTyped(vals, Sty), S, T, "pool-pair")
+				checkReuse(c, siteSafe, func() convert.Conversion { return convert.GetConversion(Sty, Tty) }, sameTyped(vals, Sty), S, T, "pool-pair")
+			}
 			for _, v := range vals {
 				idx++
 				if !c.Mine(idx) || !c.Want(base+idx) {
@@ -214,4 +225,17 @@ func runStructural(c *core.Ctx, base int64) {
 	if c.Batch == 0 {
 		c.Exhaustive(fmt.Sprintf("every tuple / object type of 2 or 3 members from a %d-type pool x 7 collection targets with placeholder element types: lookups, one known value and the unknown value of the type", len(pool)))
 	}
+}
+
+// sameTyped keeps the values whose type is exactly ty (the documented domain of
+// a conversion function requested for ty).
+func sameTyped(vs []cty.Value, ty cty.Type) []cty.Value {
+	var out []cty.Value
+	for _, v := range vs {
+		u, _ := v.Unmark()
+		if u.Type().Equals(ty) {
+			out = append(out, v)
+		}
+	}
+	return out
 }
